@@ -8,7 +8,7 @@ import re as real_re
 
 import z3
 
-from ..core import (SSeq, SInt, S, Unsupported, And, Or, Not, If, mkint, mkbool, tz, tb, code_of)
+from ..core import (SSeq, SInt, SLetter, S, Unsupported, And, Or, Not, If, mkint, mkbool, tz, tb, code_of)
 
 try:
     import re._parser as sre_parse
@@ -108,6 +108,15 @@ def in_cls(e, cls):
     """membership of a letter code (int | SInt) in a class -> python bool | z3 Bool"""
     if isinstance(e, int):
         return (e in cls.codes) != cls.neg
+    if isinstance(e, SLetter):
+        low = {c for c in cls.codes if c < 8}
+        if all(((c + 4) % 8) in low for c in low):
+            # class closed under case on ACGT/acgt: membership depends on the base only
+            bases = sorted({c % 4 for c in low})
+            b = e.base
+            if isinstance(b, int):
+                return (b in bases) != cls.neg
+            return in_cls(b, _Cls(bases, cls.neg))
     ze = e.e
     k = (ze.get_id(), cls.key())
     r = _ATOM.get(k)
